@@ -23,8 +23,10 @@ RULE = ('TT families x spectra (flat, geometric, dominant, exactly low rank '
     '2-40 tensors/numbers with trunc_freq 1/2/15; non-trivial = distinct '
     '(shape, ranks, flags, e-bucket) calls that lowered at least one rank')
 REQUIRED = {'trunc-structure': 500, 'trunc-error-bound': 300,
+    'trunc-options-unchanged': 500,
     'trunc-quasi-optimal': 500, 'trunc-rank-minimal': 500,
-    'addmany-final': 20, 'trunc-nested-in-add_many': 50}
+    'addmany-final': 20, 'trunc-nested-in-add_many': 50,
+    'addmany-cancel-cap': 40}
 ASSUMPTIONS = ['dense SVD (LAPACK) of the unfoldings is the reference',
     'rounding floor: 50(d-1)eps||A|| in SVD mode, sqrt(50(d-1)eps)||A|| in '
     'eigen mode (Gram matrix squares the condition number)',
@@ -50,6 +52,9 @@ def gen_cases(seed, tier):
     for j in range(na):
         out.append({'kind': 'add_many', 'seed': int(rng.integers(1 << 62)),
             'trunc_freq': [1, 2, 15][j % 3]})
+    for j in range(90 if tier == 'quick' else 6000):
+        out.append({'kind': 'add_many', 'seed': int(rng.integers(1 << 62)),
+            'trunc_freq': [3, 5, 15][j % 3], 'cancel': True})
     return out
 
 
@@ -154,10 +159,11 @@ def make_truncate(orig):
         ba.apply_defaults()
         a = ba.arguments
         Y_in = [np.array(G, copy=True) for G in a['Y']]
+        e_in, r_in = float(a['e']), float(a['r'])   # read BEFORE the call
         Z = orig(*args, **kwargs)
         ctx = core.CUR
         if ctx is not None:
-            judge_truncate(ctx, Y_in, Z, float(a['e']), float(a['r']),
+            judge_truncate(ctx, Y_in, Z, e_in, r_in,
                 bool(a['orth']), bool(a['use_stab']), bool(a['is_eigh']),
                 _state['nested'] > 0)
         return Z
@@ -248,6 +254,34 @@ def run_trunc(case, ctx):
                     'rel_error': ref.fro(np.asarray(ref.dense_ld(Z),
                         dtype=float) - f['A']) / nrm})
     ctx.event('truncate-direct-calls', len(pick) * 4)
+    # option OBJECTS (0-d / 1-element arrays, numpy scalars) reused over
+    # several calls: every call must see the accuracy the caller wrote down
+    if pick:
+        e0 = float(pick[int(rng.integers(len(pick)))])
+        form = int(rng.integers(4))
+        eo = [np.array(e0), np.array([e0]), np.float64(e0),
+            np.array(e0, dtype=np.float32)][form]
+        e_want = float(np.asarray(eo).reshape(-1)[0])
+        ro = np.array(caps[int(rng.integers(len(caps)))])
+        r_want = float(ro)
+        for rep in range(2):
+            stab, is_eigh = bool(rng.random() < .5), bool(rng.random() < .5)
+            if form == 1:
+                # a 1-element array is not a scalar for every numpy
+                # operation inside; a clean rejection is acceptable
+                try:
+                    teneva.truncate(Y, eo, ro, True, stab, is_eigh)
+                except (TypeError, ValueError):
+                    ctx.event('one-element-array-accuracy-rejected')
+            else:
+                teneva.truncate(Y, eo, ro, True, stab, is_eigh)
+            ok = float(np.asarray(eo).reshape(-1)[0]) == e_want and \
+                float(ro) == r_want
+            ctx.check('trunc-options-unchanged', ok, lambda: 'truncate '
+                f'overwrote its option objects: e {e_want!r} -> '
+                f'{np.asarray(eo).reshape(-1)[0]!r}, r {r_want!r} -> '
+                f'{float(ro)!r} (call {rep + 1}, {type(eo).__name__} '
+                f'shape {np.shape(eo)})')
 
 
 def run_add_many(case, ctx):
@@ -272,14 +306,41 @@ def run_add_many(case, ctx):
     e = float(10.0 ** rng.uniform(-8, -0.5))
     tf = case['trunc_freq']
     cap = 1e12 if rng.random() < 0.7 else int(rng.integers(1, 5))
+    if case.get('cancel'):
+        # P_1 .. P_k, T, -P_1 .. -P_k: the partial sums have high ranks, the
+        # complete sum is T; a cap above the ranks of T does not bind for the
+        # result and must not be applied to the partial sums
+        n = gen.rand_shape(rng, 3, 4, 3, 4)
+        d = len(n)
+        k = int(rng.integers(tf + 1, tf + 4))
+        P = [gen.cores(rng, n, gen.rand_ranks(rng, d, 2), 'normal')
+            for _ in range(k)]
+        rT = int(rng.integers(1, 3))
+        T = gen.cores(rng, n, [1] + [rT] * (d - 1) + [1], 'normal')
+        neg = []
+        for Q in P:
+            Qm = [G.copy() for G in Q]
+            Qm[int(rng.integers(d))] *= -1.
+            neg.append(Qm)
+        order = list(rng.permutation(k))
+        items = P + [T] + [neg[int(i)] for i in order]
+        dense = [np.asarray(ref.dense_ld(Y), dtype=float) for Y in items]
+        m = len(items)
+        e = float(10.0 ** rng.uniform(-9, -4))
+        cap = rT + int(rng.integers(1, 3))
+        ctx.event('add_many-cancelling-summands')
+    eo = np.array(e) if rng.random() < 0.3 else e
     _state['nested'] += 1
     try:
         if cap == 1e12 and rng.random() < 0.5:
-            Z = teneva.add_many(items, e, trunc_freq=tf)
+            Z = teneva.add_many(items, eo, trunc_freq=tf)
         else:
-            Z = teneva.add_many(items, e, cap, tf)
+            Z = teneva.add_many(items, eo, cap, tf)
     finally:
         _state['nested'] -= 1
+    if isinstance(eo, np.ndarray):
+        ctx.check('trunc-options-unchanged', float(eo) == e, lambda: 'add_many '
+            f'overwrote its accuracy object: {e!r} -> {float(eo)!r}')
     if all(not isinstance(x, list) for x in items):
         ctx.check('addmany-final', not isinstance(Z, list)
             and abs(Z - sum(items)) <= 1e-12 * (1 + sum(abs(x) for x in items)),
@@ -303,6 +364,17 @@ def run_add_many(case, ctx):
     rout = ref.ranks_of(Z)
     ctx.check('addmany-final', all(q <= max(1, int(cap)) for q in rout),
         f'add_many ranks {rout} exceed cap {cap}')
+    if case.get('cancel'):
+        # the exact sum T has ranks < cap, so the best rank-cap approximation
+        # of (T + N), N the accumulated intermediate rounding error (<= E),
+        # is at most ||N|| away in every unfolding: the final rounding adds
+        # at most sqrt(d-1) ||N|| + e ||T + N|| whether or not its cap binds
+        bound = (1 + np.sqrt(d - 1)) * E + e * (ref.fro(S) + E)
+        ctx.check('addmany-cancel-cap', err <= bound * (1 + 1e-9) + floor,
+            lambda: f'add_many of {m} summands that cancel to a rank-{rT} '
+            f'tensor, cap {cap}: error {err:.4e} exceeds {bound:.4e} (cap '
+            'applied to partial sums?)', e=e, trunc_freq=tf, shape=n,
+            ranks_out=rout)
     if all(q < cap for q in rout[1:-1]):
         ctx.check('addmany-final', err <= bound_no_cap * (1 + 1e-9) + floor,
             f'add_many error {err:.4e} exceeds the accumulated bound '
